@@ -56,6 +56,12 @@ pub fn streams(thorough: bool) -> Vec<(String, Vec<u8>)> {
             }
         }
     }
+    // bytes after the request in the same stream: a body, a pipelined second request, upper-case junk
+    for (n, tail) in [("body-lower", &b"hello=world"[..]), ("body-upper", &b"HELLO"[..]), ("pipelined", &b"GET /2 HTTP/1.1\r\n\r\n"[..]), ("crlf", &b"\r\n"[..]), ("nul", &b"\x00\xff"[..])] {
+        let mut s = b"POST /p HTTP/1.1\r\nHost: x\r\n\r\n".to_vec();
+        s.extend_from_slice(tail);
+        v.push((format!("http-then-{}", n), s));
+    }
     // AUTH_UNIX-sized credentials and a verifier
     {
         let cred: Vec<u8> = (0..20).map(|k| 0x41 + k as u8).collect();
